@@ -4,4 +4,5 @@
 using namespace simd;
 using dis_t = dis_interval_domain<z_number, varname_t>;
 using D = term_domain<term::TDomInfo<z_number, varname_t, dis_t>>;
-SIM_REGISTER_DOMAIN(term_dis_intervals, D, "term_dis_intervals", 0)
+SIM_REGISTER_DOMAIN(term_dis_intervals, D, "term_dis_intervals",
+                    CAP_BACKWARD)
